@@ -8,65 +8,26 @@
        length := packer.encodeRecord(record, buffer)
        return buffer[:length]
 
-   built on C10's model of encodeRecord ([Serializer.encode_record_on] / [serialize_record]); only the new
-   function maxEncodedLength and the choice of the buffer are modelled here.  [fixed = false] is the code before
-   the fix (C10's [serialize_record]: the preallocated buffer, index out of range when the event does not fit).
+   this is C10's [Serializer.serialize_record] (C10 mirrors the fix as well).  [fixed = false] is the code before
+   the fix ([Serializer.serialize_on] the preallocated buffer: index out of range when the event does not fit).
    No proofs in this file. *)
 From SV Require Import Model.Common Model.Msgpack Model.Serializer.
 Open Scope nat_scope.
 
-(* the loop over the visible fields: len(serializedFieldKeys[i]) + 5 + (MaxFieldLength | len(value)) *)
-Fixpoint max_fields_len (masks : list bool) (keys : list bytes) (rws : list (option rewriter))
-         (fields : list bytes) (rec : record) (acc : nat) : outcome nat :=
-  match fields with
-  | [] => Ok acc
-  | value :: fields' =>
-    match masks, keys, rws with
-    | m :: masks', key :: keys', rw :: rws' =>
-      if m || is_nil value then max_fields_len masks' keys' rws' fields' rec acc
-      else
-        n <-- match rw with
-              | Some head => max_field_length head value rec
-              | None => Ok (length value)
-              end ;;
-        max_fields_len masks' keys' rws' fields' rec (acc + length key + 5 + n)
-    | _, _, _ => Panic site_index
-    end
-  end.
-
-(* the loop over the environment fields: len(serializedEnvFieldKeys[i]) + 5 + len(loc.Get(fields)) *)
-Fixpoint max_env_len (locs : list nat) (keys : list bytes) (fields : list bytes) (acc : nat) : outcome nat :=
-  match locs with
-  | [] => Ok acc
-  | loc :: locs' =>
-    match keys with
-    | key :: keys' =>
-      value <-- get_field fields loc ;;
-      max_env_len locs' keys' fields (acc + length key + 5 + length value)
-    | [] => Panic site_index
-    end
-  end.
-
-(* root-array header 1, timestamp 10, root-map header 3, "environment" key 12, environment-map header 3 *)
-Definition fixed_overhead : nat := 1 + 10 + 3 + 12 + 3.
-
-(* maxEncodedLength *)
-Definition max_encoded_length (ser : serializer) (rec : record) : outcome nat :=
-  let nfields := length (s_masks ser) in
-  fields <-- (if (nfields <=? length (r_fields rec))%nat       (* record.Fields[0:len(fieldMasks)] *)
-              then Ok (firstn nfields (r_fields rec)) else Panic site_slice) ;;
-  n <-- max_fields_len (s_masks ser) (s_keys ser) (s_rewriters ser) fields rec fixed_overhead ;;
-  max_env_len (s_env_locs ser) (s_env_keys ser) fields n.
+(* maxEncodedLength and the choice of the buffer are part of C10's model since C10 follows the fix
+   (Model/Serializer.v: max_fields_len, max_env_len, fixed_overhead, max_encoded_length, choose_buffer,
+   serialize_record); the names used by C07 are kept here. *)
+Definition max_fields_len := Serializer.max_fields_len.
+Definition max_env_len := Serializer.max_env_len.
+Definition fixed_overhead : nat := Serializer.fixed_overhead.
+Definition max_encoded_length := Serializer.max_encoded_length.
 
 Definition with_buflen (ser : serializer) (n : nat) : serializer :=
   {| s_masks := s_masks ser; s_env_locs := s_env_locs ser; s_rewriters := s_rewriters ser;
      s_keys := s_keys ser; s_env_keys := s_env_keys ser; s_buflen := n |}.
 
 (* SerializeRecord.  The contents of the reused buffer do not matter (C10_buffer_contents_irrelevant): as in
-   C10's correspondence the buffer starts zeroed. *)
+   C10's correspondence the buffer starts zeroed.  [fixed = false]: encodeRecord on the preallocated buffer. *)
 Definition serialize_record_fixed (fixed : bool) (ser : serializer) (rec : record) : outcome bytes :=
-  if fixed then
-    m <-- max_encoded_length ser rec ;;
-    if (s_buflen ser <=? m)%nat then serialize_record (with_buflen ser (S m)) rec
-    else serialize_record ser rec
-  else serialize_record ser rec.
+  if fixed then serialize_record ser rec
+  else serialize_on ser rec (repeat 0%N (s_buflen ser)).
